@@ -1038,6 +1038,132 @@ theorem nrs_digit {c : Char} (t : List Char) (h : isDigit c = true) : NoRegexSta
   · intro e; subst e; revert h; decide
   · intro e; subst e; exact absurd h (by decide)
 
+/-! ### type casts -/
+
+def castB : DataType → Bool
+  | .Float | .Integer | .Unsigned | .String | .Boolean | .AnyField | .Tag => true
+  | _ => false
+def castTok : DataType → Token
+  | .AnyField => .FIELD
+  | .Tag => .TAG
+  | _ => .IDENT
+def castLit (dt : DataType) : List Char :=
+  match dt with
+  | .AnyField => []
+  | .Tag => []
+  | d => d.str
+
+theorem scanFrom_colon (pos : Pos) (r r1 : Cursor) : scanFrom ':' pos r r1 = scanFrom4 ':' pos r1 := by
+  unfold scanFrom
+  simp only [show isWhitespace ':' = false from by decide, show isLetter ':' = false from by decide,
+    show isDigit ':' = false from by decide, show (':' == '_') = false from by decide,
+    show (':' : Char) ≠ eofRune from by decide, show (':' : Char) ≠ '"' from by decide,
+    show (':' : Char) ≠ '\'' from by decide, show (':' : Char) ≠ '.' from by decide, show (':' : Char) ≠ '$' from by decide,
+    Bool.or_self, Bool.false_eq_true, if_false]
+  rfl
+
+theorem scan_dcolon (r : Cursor) (t : List Char) (h : r.chars = ':' :: ':' :: t) :
+    (scan r).1.tok = .DOUBLECOLON ∧ (scan r).2.chars = t := by
+  obtain ⟨h1, h2, _⟩ := Cursor.chars_cons h
+  obtain ⟨_, h3, p3⟩ := Cursor.chars_cons h2
+  unfold scan
+  rw [h1, scanFrom_colon]
+  unfold scanFrom4
+  simp only [show (':' : Char) ≠ '(' from by decide, show (':' : Char) ≠ ')' from by decide,
+    show (':' : Char) ≠ ',' from by decide, show (':' : Char) ≠ ';' from by decide, if_false, if_true, p3]
+  exact ⟨trivial, h3⟩
+
+def wordB : List Char → Bool
+  | c :: tl => isIdentFirstChar c && tl.all isIdentChar
+  | [] => false
+
+theorem scan_wordB (r : Cursor) (w k : List Char) (hw : wordB w = true) (hk : IdEnd k) (h : r.chars = w ++ k) :
+    (scan r).1.tok = lookup w ∧ (scan r).1.lit = (if lookup w = .IDENT then w else []) ∧ Rem (scan r).2 k := by
+  cases w with
+  | nil => cases hw
+  | cons c tl =>
+    simp only [wordB, Bool.and_eq_true, List.all_eq_true] at hw
+    exact scan_word r c tl k hw.1 hw.2 hk h
+
+theorem cast_words : ∀ dt : DataType, castB dt = true →
+    wordB dt.str = true ∧ lookup dt.str = castTok dt ∧ (if lookup dt.str = .IDENT then dt.str else []) = castLit dt := by
+  intro dt h; cases dt <;> first | (exfalso; revert h; decide) | decide
+
+theorem scan_castword (dt : DataType) (hdt : castB dt = true) (k : List Char) (hk : SepU k) (r : Cursor)
+    (h : r.chars = dt.str ++ k) :
+    (scan r).1.tok = castTok dt ∧ (scan r).1.lit = castLit dt ∧ Rem (scan r).2 k := by
+  obtain ⟨h1, h2, h3⟩ := cast_words dt hdt
+  have := scan_wordB r dt.str k h1 hk.idEnd h
+  rw [h2] at this
+  exact ⟨this.1, by rw [this.2.1, ← h3, h2], this.2.2⟩
+
+theorem castTypes_low : ∀ dt : DataType, lowB dt.str = true := by intro dt; cases dt <;> decide
+
+theorem parseVarRef_cast (s : PState) (lx t1 : Lexeme) (hn : s.n = 2) (h1 : s.buf[1]? = some lx)
+    (h0 : s.buf[0]? = some t1) (hlx : lx.tok = .IDENT) (ht1 : t1.tok = .DOUBLECOLON) (dt : DataType)
+    (hdt : castB dt = true) (htbl : AsciiFix s.lowerTbl) (htok : (scan s.r).1.tok = castTok dt)
+    (hlit : (scan s.r).1.lit = castLit dt) :
+    parseVarRef.run s = .ok (.varRef lx.lit dt,
+      { s with n := 0, r := (scan s.r).2, buf := ((scan s.r).1 :: s.buf).take 3 }) := by
+  unfold parseVarRef
+  rw [P.run_bind _ _ _ _ _ (parseSegmentedIdents_single s lx t1 hn h1 h0 hlx (by rw [ht1]; decide) (by rw [ht1]; decide))]
+  rw [P.run_bind _ _ _ _ _ (pscan_buffered { s with n := 1 } 0 t1 rfl h0 (by rw [ht1]; decide))]
+  simp only [ht1, if_true]
+  have hps := pscan_fresh ({ s with n := 0 } : PState) rfl (by
+    show (scan s.r).1.tok ≠ .BOUNDPARAM
+    rw [htok]; cases dt <;> decide)
+  rw [P.run_bind _ _ _ _ _ hps, P.run_bind _ _ _ _ _ (P.run_get _)]
+  have hlow : lowerStr s.lowerTbl dt.str = dt.str := lowerStr_fix _ htbl _ (castTypes_low dt)
+  cases dt <;> first
+    | (exfalso; revert hdt; decide)
+    | (simp only [castTok, castLit] at htok hlit
+       simp only [htok, hlit, hlow]
+       rfl)
+
+/-- An identifier followed by `::type`: a typed variable reference; nothing stays pushed back. -/
+theorem unary_ident_cast (F : Nat) (s s1 : PState) (lx : Lexeme) (r1 : Cursor)
+    (h1 : scanIW.run s = .ok (lx, s1)) (hj : Just s1 lx r1) (htok : lx.tok = .IDENT) (dt : DataType)
+    (hdt : castB dt = true) (k : List Char) (hk : SepU k) (htbl : AsciiFix s1.lowerTbl)
+    (hch : r1.chars = ':' :: ':' :: (dt.str ++ k)) :
+    ∃ lx' s', (parseUnaryExpr (F + 1)).run s = .ok (.varRef lx.lit dt, s') ∧ Just s' lx' s'.r ∧ Rem s'.r k ∧
+      Same s1 s' := by
+  have hsig : lx.tok ≠ .BOUNDPARAM ∧ lx.tok ≠ .WS ∧ lx.tok ≠ .COMMENT := by rw [htok]; decide
+  have hnp : ¬ lx.tok = .LPAREN := by rw [htok]; decide
+  obtain ⟨hn0, hb0, hr0⟩ := hj
+  subst hr0
+  obtain ⟨hdc, hch2⟩ := scan_dcolon s1.r _ hch
+  have hps := pscan_fresh s1 hn0 (by rw [hdc]; decide)
+  obtain ⟨c1, c2, c3⟩ := scan_castword dt hdt k hk (scan s1.r).2 hch2
+  have hvr := parseVarRef_cast
+    (unsc (unsc { s1 with r := (scan s1.r).2, buf := ((scan s1.r).1 :: s1.buf).take 3 })) lx (scan s1.r).1
+    (by simp [unsc, hn0]) (by simp [unsc, hb0]) (by simp [unsc]) htok hdc dt hdt htbl c1 c2
+  refine ⟨(scan (scan s1.r).2).1, ?st, ?run, ?j, ?rem, ?sm⟩
+  case run =>
+    rw [parseUnaryExpr, P.run_bind _ _ _ _ _ h1, P.run_ite, if_neg hnp, P.run_bind _ _ _ _ _ (unscan_run' s1),
+      P.run_bind _ _ _ _ _ (scanIW_redeliver s1 lx s1.r ⟨hn0, hb0, rfl⟩ hsig.1 hsig.2.1 hsig.2.2)]
+    obtain ⟨tok, pos, lit⟩ := lx
+    simp only at htok
+    subst htok
+    show (pscan >>= _).run s1 = _
+    rw [P.run_bind _ _ _ _ _ hps, P.run_ite, if_neg (by rw [hdc]; decide), P.run_bind _ _ _ _ _ (unscan_run' _),
+      P.run_bind _ _ _ _ _ (unscan_run' _)]
+    exact hvr
+  case j => exact ⟨rfl, by simp [unsc], rfl⟩
+  case rem => exact c3
+  case sm => exact ⟨rfl, rfl⟩
+
+theorem noCR_typeStr : ∀ dt : DataType, ∀ c ∈ dt.str, c ≠ '\r' := by
+  intro dt; cases dt <;> decide
+
+/-- What is printed after the name of a variable reference. -/
+def castText (t : DataType) : List Char := if t = .Unknown then [] else [':', ':'] ++ t.str
+
+theorem idEnd_castText (t : DataType) (k : List Char) (hk : SepU k) : IdEnd (castText t ++ k) := by
+  unfold castText
+  split
+  · simpa using hk.idEnd
+  · exact Or.inr ⟨':', _, rfl, by decide, by decide, by decide⟩
+
 /-! ## Part 6: the class of expressions and the three specifications -/
 
 /-- No NUL and no CR (Boolean form of `Expressible`). -/
@@ -1082,7 +1208,8 @@ mutual
   levels demand (an unparenthesised left operand binds at least as tightly as its parent, a right
   one strictly tighter — this is what excludes the `a / -1 * b` finding); leaves are variable
   references, string, integer (of either sign), unsigned and boolean literals, parenthesised
-  expressions and — in the extended class `x = true` — calls of functions whose name is a
+  expressions and — in the extended class `x = true` — variable references with a type cast
+  (`::float`, `::integer`, `::unsigned`, `::string`, `::boolean`, `::field`, `::tag`) and calls of functions whose name is a
   lower-case non-keyword identifier, with arguments of the class or regex literals. -/
   def rtOK (x : Bool) : Expr → Bool
     | .binary op l r =>
@@ -1090,7 +1217,7 @@ mutual
         topGeB op.precedence l && topGeB (op.precedence + 1) r
     | .paren e => rtOK x e
     | .call name args => x && callNameB name && rtOKArgs x args
-    | .varRef v t => exprB v && (t == .Unknown)
+    | .varRef v t => exprB v && (t == .Unknown || (x && castB t))
     | .string v => exprB v
     | .integer n => decide (minInt64 ≤ n) && decide (n ≤ maxInt64)
     | .unsigned v => decide (maxInt64 < (v : Int)) && decide ((v : Int) ≤ maxUInt64)
@@ -1253,13 +1380,10 @@ theorem atom_start (a : Expr) (ha : rtOK x a = true) (hnb : NB a) (k : List Char
   | varRef v t =>
     rw [rtOK] at ha
     simp only [Bool.and_eq_true, beq_iff_eq] at ha
-    obtain ⟨hv, ht⟩ := ha
-    subst ht
-    rw [print_varRef]
-    simp only [if_true, List.append_nil]
+    obtain ⟨hv, _⟩ := ha
+    rw [print_varRef, List.append_assoc]
     refine ⟨?_, fun r hr => ?_⟩
-    · obtain ⟨c, t, hct, _, _⟩ := headOK_quoteIdent v
-      have hnr : NoRegexStart (quoteIdent [v]) := by
+    · have hnr : NoRegexStart (quoteIdent [v]) := by
         rw [C06.quoteIdent_single]
         by_cases hq : (identNeedsQuotes v || v == []) = true
         · rw [if_pos hq]; exact nrs_of '"' _ (by decide)
@@ -1272,12 +1396,12 @@ theorem atom_start (a : Expr) (ha : rtOK x a = true) (hnb : NB a) (k : List Char
             · exact htl y hy
           rw [C06.esc_identChars _ hall]
           exact nrs_identFirst _ hc
-      obtain ⟨c, t, e, h1, h2, h3, h4, h5⟩ := hnr
+      obtain ⟨c, t', e, h1, h2, h3, h4, h5⟩ := hnr
       rw [e]
-      exact ⟨c, t ++ k, rfl, h1, h2, h3, h4, fun hm => by
-        obtain ⟨d, t', e', hd⟩ := h5 hm
-        exact ⟨d, t' ++ k, by rw [e']; rfl, hd⟩⟩
-    · rw [(scan_ident_text r v k (exprB_expressible hv) hk.idEnd hr).1]; exact ⟨by decide, by decide⟩
+      exact ⟨c, t' ++ _, rfl, h1, h2, h3, h4, fun hm => by
+        obtain ⟨d, t'', e', hd⟩ := h5 hm
+        exact ⟨d, t'' ++ _, by rw [e']; rfl, hd⟩⟩
+    · rw [(scan_ident_text r v _ (exprB_expressible hv) (idEnd_castText t k hk) hr).1]; exact ⟨by decide, by decide⟩
   | call name args =>
     rw [rtOK] at ha
     simp only [Bool.and_eq_true] at ha
@@ -1660,20 +1784,36 @@ theorem specU_step (F : Nat) (ihE : SpecE x F) (_ihU : SpecU x F) (ihC : SpecC x
     rw [rtOK] at ha
     simp only [Bool.and_eq_true, beq_iff_eq] at ha
     obtain ⟨hv, ht⟩ := ha
-    subst ht
     have hv' : Expressible v := exprB_expressible hv
-    have hat' : AtW s (quoteIdent [v] ++ k) := by simpa [print_varRef] using hat
-    obtain ⟨lx, s1, r1, hrun, htok, hlit, hj, hq, hsame⟩ := scanIW_first s _ hat'
-      ((headOK_quoteIdent v).append k) .IDENT v (fun r => Rem r k)
-      (fun r hr => scan_ident_text r v k hv' hk.idEnd hr) ⟨by decide, by decide, by decide⟩
-    have hsep := scan_sep_tok r1 k hq hk
-    obtain ⟨s', hrun', hlook, hsame'⟩ := unary_ident_plain F s s1 lx r1 hrun hj htok
-      (by rcases hsep with h | h | h | h <;> rw [h] <;> decide)
-      (by rcases hsep with h | h | h | h <;> rw [h] <;> decide)
-      (by rcases hsep with h | h | h | h <;> rw [h] <;> decide)
-      (by rcases hsep with h | h | h | h <;> rw [h] <;> decide)
-    rw [wp_of_run_ok hrun']
-    exact ⟨by rw [hlit], ⟨r1, hlook, hq⟩, hsame.trans hsame'⟩
+    by_cases htu : t = .Unknown
+    · subst htu
+      have hat' : AtW s (quoteIdent [v] ++ k) := by simpa [print_varRef] using hat
+      obtain ⟨lx, s1, r1, hrun, htok, hlit, hj, hq, hsame⟩ := scanIW_first s _ hat'
+        ((headOK_quoteIdent v).append k) .IDENT v (fun r => Rem r k)
+        (fun r hr => scan_ident_text r v k hv' hk.idEnd hr) ⟨by decide, by decide, by decide⟩
+      have hsep := scan_sep_tok r1 k hq hk
+      obtain ⟨s', hrun', hlook, hsame'⟩ := unary_ident_plain F s s1 lx r1 hrun hj htok
+        (by rcases hsep with h | h | h | h <;> rw [h] <;> decide)
+        (by rcases hsep with h | h | h | h <;> rw [h] <;> decide)
+        (by rcases hsep with h | h | h | h <;> rw [h] <;> decide)
+        (by rcases hsep with h | h | h | h <;> rw [h] <;> decide)
+      rw [wp_of_run_ok hrun']
+      exact ⟨by rw [hlit], ⟨r1, hlook, hq⟩, hsame.trans hsame'⟩
+    · have hxc : x = true ∧ castB t = true := by
+        have : (t == DataType.Unknown) = false := by simpa using htu
+        simpa [this] using ht
+      have hat' : AtW s (quoteIdent [v] ++ (':' :: ':' :: (t.str ++ k))) := by
+        simpa [print_varRef, htu] using hat
+      obtain ⟨lx, s1, r1, hrun, htok, hlit, hj, hq, hsame⟩ := scanIW_first s _ hat'
+        ((headOK_quoteIdent v).append _) .IDENT v (fun r => r.chars = ':' :: ':' :: (t.str ++ k))
+        (fun r hr => by
+          have := scan_ident_text r v _ hv' (Or.inr ⟨':', _, rfl, by decide, by decide, by decide⟩) hr
+          exact ⟨this.1, this.2.1, this.2.2.chars_of_cons (by decide)⟩)
+        ⟨by decide, by decide, by decide⟩
+      obtain ⟨lx', s', hrun', hj', hrem', hsame'⟩ := unary_ident_cast F s s1 lx r1 hrun hj htok t hxc.2 k hk
+        ((htb.same hsame) hxc.1) hq
+      rw [wp_of_run_ok hrun']
+      exact ⟨by rw [hlit], hj'.at hrem', hsame.trans hsame'⟩
   | call name args =>
     rw [rtOK] at ha
     simp only [Bool.and_eq_true] at ha
@@ -1823,10 +1963,13 @@ theorem print_noCR : ∀ e : Expr, rtOK x e = true → NoCR e.print
   | .varRef v t, h => by
     rw [rtOK] at h
     simp only [Bool.and_eq_true, beq_iff_eq] at h
-    obtain ⟨hv, ht⟩ := h
-    subst ht
+    obtain ⟨hv, _⟩ := h
     rw [print_varRef]
-    simpa using noCR_quoteIdent v (exprB_expressible hv)
+    refine (noCR_quoteIdent v (exprB_expressible hv)).append ?_
+    split
+    · intro c hc; cases hc
+    · have h1 : NoCR [':', ':'] := by intro c hc; simp at hc; subst hc; decide
+      exact h1.append (noCR_typeStr t)
   | .call name args, h => by
     rw [rtOK] at h
     simp only [Bool.and_eq_true] at h
